@@ -105,6 +105,8 @@ func c03Scenario(name string, signers []string, min uint64, fullGov bool) *Scena
 	}
 	s.Actions = append(s.Actions,
 		decide("O", 1, 2),
+		// the same signer again, its address spelled in upper case (a legal bech32 spelling of the same account)
+		upper(decide("S1", 1, 2)), upper(decide("S2", 1, 3)),
 		Action{Name: "accept(S1,#9)", Dt: time.Millisecond, Txs: tx1(model.Msg{Kind: model.EntDecide, From: "S1", ID: 9, N: 2})},
 		Action{Name: "whitelist(S1,+P2)", Dt: time.Millisecond, Txs: tx1(model.Msg{Kind: model.EntWhitelist, From: "S1", To: "P2", N: 1})},
 		Action{Name: "whitelist(S2,-P1)", Dt: time.Millisecond, Txs: tx1(model.Msg{Kind: model.EntWhitelist, From: "S2", To: "P1", N: 2})},
